@@ -44,7 +44,10 @@ impl SWCurveConfig for Config {
         p: &bn::G1Projective<crate::Config>,
         scalar: &[u64],
     ) -> bn::G1Projective<crate::Config> {
-        let s = Self::ScalarField::from_sign_and_limbs(true, scalar);
+        // `scalar` is an arbitrary limb slice: it may be longer than the scalar field
+        // (leading zero limbs) or denote an integer >= r, so reduce it modulo r.
+        let bytes: ark_std::vec::Vec<u8> = scalar.iter().flat_map(|l| l.to_le_bytes()).collect();
+        let s = Self::ScalarField::from_le_bytes_mod_order(&bytes);
         GLVConfig::glv_mul_projective(*p, s)
     }
 
